@@ -146,6 +146,9 @@ Clauses_from_adjacency(ev) ==
           \A i \in 1..Len(got.obs), j \in 1..Len(got.samp) : VEq(got.mat[i][j], RecSum(recs, got.obs[i], got.samp[j]))]
 
 UcCount(recs, o, s) == Cardinality({k \in 1..Len(recs) : recs[k][1] \in {"H", "S"} /\ recs[k][2] = o /\ recs[k][3] = s})
+\* args.via: "api" = parse_uc on lines; "cli" = `biom from-uc`; "cli_repset" = `biom from-uc --rep-set-fp` with a
+\* FASTA file that relabels every seed <o> as <o>~R (the table must hold the new labels, counts unchanged)
+UcRen(ev, o) == IF ev.args.via = "cli_repset" THEN o \o "~R" ELSE o
 Clauses_parse_uc(ev) ==
   LET recs == ev.args.records
       counted == {k \in 1..Len(recs) : recs[k][1] \in {"H", "S"}}
@@ -154,10 +157,12 @@ Clauses_parse_uc(ev) ==
   IN IF counted = {} THEN [C17_out_of_domain |-> TRUE]
      ELSE IF Failed(ev) THEN [C17_importer_succeeds |-> FALSE]
      ELSE LET got == ev.post[ev.res] IN
-      [C17_importer_ids_are_the_named_ids |-> SeqSet(got.obs) = O /\ SeqSet(got.samp) = S
+      [C17_importer_ids_are_the_named_ids |-> SeqSet(got.obs) = {UcRen(ev, o) : o \in O} /\ SeqSet(got.samp) = S
                                                /\ IsInj(got.obs) /\ IsInj(got.samp),
        C17_cells_are_counts_of_records |->
-          \A i \in 1..Len(got.obs), j \in 1..Len(got.samp) : got.mat[i][j] = R(UcCount(recs, got.obs[i], got.samp[j]))]
+          \A o \in O, s_ \in S :
+             \A i \in 1..Len(got.obs), j \in 1..Len(got.samp) :
+                (got.obs[i] = UcRen(ev, o) /\ got.samp[j] = s_) => got.mat[i][j] = R(UcCount(recs, o, s_))]
 
 \* ------------------------------------------------------------------ C15 validator
 \* The driver wrote the table as JSON or HDF5 with the library, applied args.muts (0..2 structural
